@@ -510,6 +510,8 @@ static int drv_stats(int argc, char** argv) {
       hrec["final"] = map_json(st->getAll());
       // optional clients left in odd states while the service shuts down
       std::vector<int> dangling;
+      std::vector<std::thread> drippers;
+      std::atomic<bool> drip_stop{false};
       for (const auto& d : hist.get("dangling", Json::Value(Json::arrayValue))) {
         int fd = raw_connect(sock);
         if (fd >= 0) {
@@ -520,6 +522,19 @@ static int drv_stats(int argc, char** argv) {
             ::send(fd, "g", 1, MSG_NOSIGNAL);
           } else if (beh == "noread") {
             ::send(fd, "g\n", 2, MSG_NOSIGNAL);
+          } else if (beh == "drip") {
+            // a request that arrives one byte at a time, each well inside the per-read timeout, and never ends
+            ::send(fd, "g", 1, MSG_NOSIGNAL);
+            drippers.emplace_back([fd, &drip_stop] {
+              for (int i = 0; i < 25 && !drip_stop.load(); ++i) {
+                for (int k = 0; k < 12 && !drip_stop.load(); ++k) {
+                  usleep(100000);
+                }
+                if (::send(fd, "x", 1, MSG_NOSIGNAL) <= 0) {
+                  break;
+                }
+              }
+            });
           }
           dangling.push_back(fd);
         }
@@ -530,6 +545,10 @@ static int drv_stats(int argc, char** argv) {
       st.reset(); // ~Stats must complete
       hrec["dtor_ms"] = (Json::Int64)std::chrono::duration_cast<std::chrono::milliseconds>(std::chrono::steady_clock::now() - t0).count();
       dtor_end = tick_seq();
+      drip_stop = true;
+      for (auto& t : drippers) {
+        t.join();
+      }
       for (int fd : dangling) {
         ::close(fd);
       }
